@@ -342,9 +342,12 @@ def _bounded(ct, tier, seed):
             r = L.trace_generic(Hx, Hy, Px, Py, 0.5876)
             note('C13.runtime.caller_arrays_unchanged', np.array_equal(Px, Px0) and np.array_equal(Py, Py0),
                  'trace_generic modified its Px/Py arguments on %s' % lname, {'lens': lname, 'query': 'trace_generic'})
-            # per-ray independence: each ray alone gives the same result (beyond the intersection tolerance)
+            # per-ray independence: each ray alone gives the same result (beyond the intersection tolerance);
+            # the bundle carries several wavelengths (first and last equal, others in between)
+            wl = np.array([0.5876, 0.4861, 0.6563, 0.5876])
+            r = L.trace_generic(Hx, Hy, Px0.copy(), Py0.copy(), wl)
             for j in range(len(Px0)):
-                r1 = L.trace_generic(Hx, Hy, Px0[j:j + 1].copy(), Py0[j:j + 1].copy(), 0.5876)
+                r1 = L.trace_generic(Hx, Hy, Px0[j:j + 1].copy(), Py0[j:j + 1].copy(), wl[j])
                 ok = all(np.allclose(getattr(r1, a)[0], getattr(r, a)[j], rtol=0, atol=1e-7, equal_nan=True) for a in 'xyLM')
                 note('C13.runtime.per_ray_independence', ok, 'ray %d of a bundle differs when traced alone on %s' % (j, lname),
                      {'lens': lname, 'ray': j})
@@ -381,3 +384,60 @@ def _rng_from(state):
 
 contract('C13.runtime', ['optiland/optic.py:Optic.trace', 'optiland/optic.py:Optic.trace_generic', 'every analysis class'], ['C13'],
          custom=_bounded)(lambda c: None)
+
+
+# ---- per-ray independence of the surface step, symbolic (3-ray bundle vs each ray alone) -----------------
+from .common import mk_rays as _mk_rays  # noqa: E402
+
+
+def _independence_contract(reflective):
+    @contract('C13.per_ray_independence.trace_real.' + ('mirror' if reflective else 'refract'),
+              ['optiland/surfaces/standard_surface.py:Surface._trace_real', 'optiland/surfaces/standard_surface.py:Surface._interact',
+               'optiland/rays/real_rays.py:RealRays.refract', 'optiland/rays/real_rays.py:RealRays.propagate',
+               'optiland/geometries/plane.py:Plane.distance'], ['C13'], max_paths=64)
+    def ind(c):
+        surfs = c.mod('optiland.surfaces')
+        geos = c.mod('optiland.geometries')
+        Base = c.mod('optiland.materials.base').BaseMaterial
+        CoordinateSystem = c.mod('optiland.coordinate_system').CoordinateSystem
+        a1, b1 = c.real('a1', 1.2, 1.8, positive=True), c.real('b1', 0.01, 0.1, positive=True)
+        a2, b2 = c.real('a2', 1.2, 1.8, positive=True), c.real('b2', 0.01, 0.1, positive=True)
+
+        class Dispersive(Base):        # n(w) = a + b w, element-wise like every catalogue formula
+            def __init__(self, a, b):
+                self.a, self.b = a, b
+
+            def n(self, w):
+                return self.a + self.b * w
+
+            def k(self, w):
+                return 0.0
+        surf = surfs.Surface(geos.Plane(CoordinateSystem(z=c.real('zs', 1.0, 5.0, positive=True))), Dispersive(a1, b1),
+                             Dispersive(a2, b2), is_reflective=reflective)
+        RealRays = c.mod('optiland.rays.real_rays').RealRays
+        w0, w1 = c.real('w0', 0.4, 0.7, positive=True), c.real('w1', 0.4, 0.7, positive=True)
+        ws = [w0, w1, w0]                  # first and last equal, a different one in between
+        P = [(c.real('x%d' % i, -1, 1), c.real('y%d' % i, -1, 1), 0.0) for i in range(3)]
+        D = [c.unit3('L%d' % i, 'M%d' % i, 'N%d' % i, cone=0.8) for i in range(3)]
+        for i in range(3):
+            c.require(D[i][2] > 0)
+            if not reflective:
+                u = (a1 + b1 * ws[i]) / (a2 + b2 * ws[i])
+                c.require(1 - u * u * (1 - D[i][2] ** 2) > 0)
+
+        def bundle(idx):
+            return RealRays(c.arr(*[P[i][0] for i in idx]), c.arr(*[P[i][1] for i in idx]), c.arr(*[P[i][2] for i in idx]),
+                            c.arr(*[D[i][0] for i in idx]), c.arr(*[D[i][1] for i in idx]), c.arr(*[D[i][2] for i in idx]),
+                            c.arr(*[1.0 for i in idx]), c.arr(*[ws[i] for i in idx]))
+        full = bundle([0, 1, 2])
+        surf.trace(full)
+        for i in range(3):
+            one = bundle([i])
+            surf.trace(one)
+            for a in ('x', 'y', 'z', 'L', 'M', 'N', 'opd', 'i'):
+                c.ensure_eq('C13.per_ray_independence.surface_step', c.val(getattr(full, a), i), c.val(getattr(one, a), 0))
+    return ind
+
+
+_independence_contract(False)
+_independence_contract(True)
